@@ -7,6 +7,8 @@ Scenario (JSON-able dict):
             (when exhausted: refused)
   verifies: list of per-opened-connection outcomes (when exhausted: "ok", 0):
             [kind, delta, lost_delay, vdelay] with kind in ok|wrongid|badtag|badsig|auth|invalid|garbage|peerclose|peerreset|http4xx
+            |okfin|okrst (answers pair-verify ok, then - instead of answering the re-subscribe PUT - closes (FIN) / resets (RST)
+            the connection delta ticks after receiving it; delta 0 or no subscription: same as ok)
             delta (ticks, only for ok): how long the accessory takes to answer the re-subscribe PUT
             lost_delay (ticks, optional): connection_lost of this connection is delivered that long after
             the controller closes it (a send buffer still draining) - the "loss of an abandoned connection" case
@@ -118,6 +120,10 @@ def run_scenario(sc):
 
         def handler(ep, method, target, body):
             if method == "PUT" and target == "/characteristics":
+                if ep.verify in ("okfin", "okrst") and ep.delta > 0:
+                    # scripted loss inside the connector's connection_made(True) window: no answer, drop the link
+                    loop.call_later(ep.delta / 4096, ep.tr.peer_fin if ep.verify == "okfin" else ep.tr.peer_reset)
+                    return None
                 return [(ep.delta, simacc.http_response(204, reason="No Content"))]
             return simacc.http_response(204, reason="No Content")
 
